@@ -181,7 +181,11 @@ CHECKS['C05'] = dict(
     text='Lean model of the error tree attach state machine and of the 997/999 visitors with theorems verdict_iff_no_error, ak5_accept_iff, '
          'ak9_accept_iff, ak9_totals_eq_recount, ack_addressed_to_sender, ack_names_every_group_and_set_in_order, itemisation_complete; the '
          'full-strength forms that the code violates are kept as _full defs with kernel-checked counterexamples (D22, D27, D28) beside proved '
-         '_partial theorems. Tied to /repo by capturing the err_handler call sequence of the real validator on valid, faulty, multi-set, '
+         '_partial theorems. PIPELINE level (Props/DocC05, DocC05Ack over validateDoc, for every input text): doc_events_wellformed (the events of any run '
+         'satisfy the hypotheses the tree-level theorems take: structural calls nest in reader order, the run of the error tree succeeds, the '
+         'tree refines a flat recount), doc_verdict_iff_no_report (verdict true iff every report is one the handler swallows - exactly finding '
+         'D27, unrestricted form refuted on a witness), doc_ack_names_groups_and_sets, doc_ack_accepts_iff, doc_ack_totals (997). '
+         'Tied to /repo by capturing the err_handler call sequence of the real validator on valid, faulty, multi-set, '
          'multi-group and multi-interchange documents (4010 and 5010), replaying it through the model and comparing tree summary and '
          'acknowledgement segments; the property oracle recounts verdict, AK5/AK9 codes and totals, addressing and itemisation on the real outputs.',
     note=COMMON_NOTE + ' Timestamps and generated control numbers are masked; list(set()) order is compared as a multiset.',
@@ -191,7 +195,12 @@ CHECKS['C06'] = dict(
     text='Lean theorems on the acknowledgement model: a complete 997/999 passes an independent structural recount (SE/GE/IEA counts, trailer '
          'control numbers = headers\') (ack997_envelope_clean, ack999_envelope_clean), set control numbers unique, echoed values cannot add or '
          'split elements or segments under the stated safety hypothesis on the written fields (echo_cannot_split, ack997_text_roundtrip), the '
-         'repaired visitors do not raise (ack_complete, ack999_complete), the ack selects the ack map. Tied to /repo by re-reading every real '
+         'repaired visitors do not raise (ack_complete, ack999_complete), the ack selects the ack map; and the LAST sentence of the property for '
+         'the 997: ack997_revalidates - the rendered acknowledgement, fed to the end-to-end model validateDoc, is accepted with no report when '
+         'the echoed values fit their slots (EchoFits) - from ack997_is_derivation (the output is a derivation of the 997 skeleton) and '
+         'ack997_values_admissible, with the map-side hypotheses (shape997, ackDefsOk, ackKeysOk, isaDefOk) regenerated from the shipped 997 '
+         'and control maps and discharged by decide +kernel on every run (tools/xack.py); the 999 counterpart stays partial (both 999 maps '
+         'fail WFMap: the listed CTX finding). Tied to /repo by re-reading every real '
          'acknowledgement with the real reader (no envelope error, recount) and re-validating it with the real validator, incl. inputs with '
          'other delimiters and data containing ~ * : ^.',
     note=COMMON_NOTE + ' Echo of delimiter characters is a listed finding.',
